@@ -13,7 +13,7 @@ EXTRA_NOTES = {
     "C04": "HRNP also on the relay path (received, field updated, sent on); error patterns aimed at indicators computed over re-serialised fields (fold-amplified, harness polynomial arithmetic); corruption records judged in slices of 400 000. Clause CorruptPduReportedIntact: an accepted corrupted PDU breaks the property also when its fields equal the original; HRNP around every HDAP family and as payload-less control packets. Errors that clear every set bit of a light CRC-32 of a confirmed last block (1500 per rate and run). ",
     "C05": "CRC-32 part incl. 00000000/00000001/80000000/FFFFFFFF; half of the callers reuse a mutable buffer for calculate, calculate, verify. Verifiers are offered structured wrong values (octets / bits in the other order, halves swapped, complement, neighbours, other mask). The CRC-32 part of the CRC-9 is also given as a number, zero included. Front-end inputs aimed by the code's algebra (Gaussian elimination over GF(2) on the affine front ends): check values all zeros / all ones / with a zero or all-one octet at either end. Front-end message lengths are walked through by a counter.",
     "C06": "Encoder outputs of a sweep are held and read after the last call; each repair result is read after the next call.",
-    "C07": "Extremes N=126/127 with 0/2/16 preambles in both tiers. Growth phase AirLink (AirLink.tla, MC_AirLink): <=2 inverted information bits per BPTC-protected burst, informational. Late-entry phase (verdict-bearing): the receiver hears one to three stray data blocks of an earlier transmission first. The header format (packet data header of either mode, defined short data header) is varied independently of the confirmation mode (the A bit).",
+    "C07": "Extremes N=126/127 with 0/2/16 preambles in both tiers. Growth phase AirLink (AirLink.tla, MC_AirLink): <=2 inverted information bits per BPTC-protected burst, informational. Late-entry phase (verdict-bearing): the receiver hears one to three stray data blocks of an earlier transmission first. The header format (packet data header of either mode, defined short data header) is varied independently of the confirmation mode (the A bit). The late-entry phase also has a receiver that heard one stale preamble (open known finding); the clauses are judged on the generated transmission's own events.",
     "C08": "Histories that outlast the 8-bit receive sequence counter are part of both tiers. Growth phase TransmissionWatcher (Watcher.tla, Trace_Watcher): per-terminal C08 monitors on traffic routed by the watcher (verdict-bearing), routing facts; observations outside the listed properties are printed as OUTSIDE-LISTED-PROPERTIES. One voice burst in eight carries the Reserved SYNC pattern (no colour code). Every third burst is parsed from its 33 octets alone (Burst.from_bytes without a burst-type hint).",
     "C09": "Half of the samples are taken by a caller that damages an earlier result in place first; a third / a quarter of the (68,28) / (128,72) messages are little-endian bitarrays. Growth phase embedded-LC reassembly (EmbeddedLC.tla, MC_EmbeddedLC, Trace_EmbeddedLC) on the real EmbeddedExtractor, informational. Growth phase capture iterator (PcapFilter.tla, MC_PcapFilter) on generated capture files, informational. Clause RowCodeIsAHammingCode: the parity-check columns learned from generate() are non-zero and pairwise different (the rows are not judged by a code that is no Hamming code); drift against the shortened cyclic codes of annex B.3. One sample in four is preceded by verifications that fail (shared CRC-8 / checksum calculators).",
     "C10": "One block in three is processed by a caller that damages earlier results in place and asks again; one in four is kept in little-endian bitarrays; every fourth damaged stream is followed by a valid block; interleave/deinterleave are also composed directly. All 64 impossible (state, point) pairs are aimed at with tails that continue validly from each state a lenient decoder might assume. Blocks also as bytearray / memoryview; the 49th position accepts only the flush point of the state reached. Plain streams (one point 49 times - the all-zero and all-one 196 bits among them -, two points alternating, a valid stream shifted by one point) judged by the model's decoder run.",
